@@ -19,8 +19,10 @@ CLAIM = dict(
          "DFT sum), the slow path and the explicit k-list sum are the same number chi_k-sum with chi_k = chi_m * chi_dK; "
          "if X(-R)=X(R)^dagger on an inversion-symmetric duplicate-free R list then every n-fold derivative factor "
          "i^n prod (R+t_b-t_a)_alpha preserves that relation and the k-space matrix and all its derivative components are "
-         "Hermitian; hermitize is idempotent and fixes Hermitian input.  Model tied to the code by exact comparison of box "
-         "contents, cRvec_shifted, and R_to_k(der=0..3) values for fftw/numpy/slow/k-list on Gaussian-integer data.",
+         "Hermitian; hermitize is idempotent and fixes Hermitian input; for EVERY history of set_fft_R_to_k calls on one "
+         "Rvectors object (grids with any NK/fftlib/dK and k lists in any order) R_to_k returns what the CURRENT "
+         "configuration alone prescribes (state machine with the stale expdK of the k-list branch modelled).  Model tied to the code by exact comparison of box "
+         "contents, cRvec_shifted, and R_to_k(der=0..3) values for fftw/numpy/slow/k-list on Gaussian-integer data, and of call sequences on one object.",
     note="Trusted: Lean kernel + Mathlib; the harness; numpy.fft / FFTW compute the inverse DFT sum (hypothesis IDFTContract; "
          "checked numerically against the explicit sum on every run); FFTW plan reuse and in-place destruction are runtime "
          "behaviour exercised by the oracle only.  Data_K_R glue (HH_K, Xbar, _rotate) is checked on the real code.",
@@ -30,12 +32,14 @@ TRUSTED = [
     "Rvectors.apply_expdK, cRvec_shifted, derivative, R_to_k (one matrix element / Cartesian component at a time)",
     "hypothesis IDFTContract: ifftn(B)*prod(N) at box point m equals sum_c chi_m(c) B(c) (checked against the slow path "
     "and the explicit sum on every run)",
+    "modelled: the Fourier state of one Rvectors object over a history of set_fft_R_to_k calls (expdK, transform)",
     "not modelled (oracle only): Data_K_R.HH_K / Xbar / _rotate glue, FFTW plan reuse, in-place destruction of inputs, "
     "Data_K construction from Grid/K-point, Xbar of AA",
 ]
 RULE = ("R sets of 1-30 vectors within |R_i|<=4 (symmetric under inversion for the oracle), 1-4 Wannier functions with "
         "centres inside/outside the home cell, lattices cubic..triclinic, FFT boxes in [1,6]^3 both >= and < the recommended "
-        "size and non-cubic, derivative orders 0-3, dK anywhere in the cell; non-trivial = at least two R vectors collide on "
+        "size and non-cubic, derivative orders 0-3, dK anywhere in the cell; histories of 3-10 set_fft_R_to_k calls on one Rvectors object "
+        "(different dK, NKFFT, fftlib, k lists, returning to earlier configurations); non-trivial = at least two R vectors collide on "
         "the box (corr box/rtok) or der >= 1 or box smaller than recommended (oracle); distinct = distinct (R set, box, dK, centres)")
 
 
@@ -98,7 +102,7 @@ def exact_rows(A):
 
 def corr(ctx):
     from .c01 import run_batched
-    run_batched(ctx, [corr_box, corr_crs, corr_rtok])
+    run_batched(ctx, [corr_box, corr_crs, corr_rtok, corr_seq])
 
 
 def corr_box(ctx):
@@ -232,6 +236,64 @@ def corr_rtok(ctx):
         ctx.sample(dict(protocol_line=lines[0][:300], model=out[0][:300]))
 
 
+
+def corr_seq(ctx):
+    """a HISTORY of set_fft_R_to_k calls on ONE Rvectors object (grids with different NK / fftlib / dK and k lists in any
+    order), R_to_k(apply_expdK(X)) after every call: every result vs the model's state machine (exact, boxes dividing 4,
+    dK and k-list entries multiples of 1/4)"""
+    from wannierberri.fourier.rvectors import Rvectors
+    rng = ctx.rng
+    lines, expect, cases = [], [], []
+    for it in range(ctx.n(12, 100)):
+        iR = gen_iRvec(rng, nmax=8, maxR=3)
+        X = gint(rng, (len(iR), 1, 1))
+        nsteps = rng.randint(2, 5)
+        steps, desc = [], []
+        for istep in range(nsteps):
+            if rng.random() < 0.3:
+                ks = [[rng.randint(-3, 6) for _ in range(3)] for _ in range(rng.randint(1, 4))]
+                steps.append("k:" + intss(ks))
+                desc.append(("klist", np.array(ks) / 4))
+            else:
+                while True:
+                    N = [rng.choice([1, 2, 2, 4]) for _ in range(3)]
+                    if N[0] * N[1] * N[2] <= 16:
+                        break
+                lib = rng.choice(["fftw", "numpy", "slow"])
+                q = [rng.randint(-5, 7) for _ in range(3)]
+                steps.append(f"g:{ints(N)}:{1 if lib == 'slow' else 0}:{ints(q)}")
+                desc.append(("grid", N, lib, np.array(q) / 4))
+        case = dict(iRvec=iR, X=X[:, 0, 0], steps=[list(map(str, d)) for d in desc])
+        got = []
+        with ctx.attempt("set_fft_R_to_k history on one Rvectors object", case):
+            with quiet():
+                rv = Rvectors(lattice=np.eye(3), shifts_left_red=np.zeros((1, 3)), iRvec=iR)
+                for d in desc:
+                    if d[0] == "klist":
+                        rv.set_fft_R_to_k(NK=(1, 1, 1), num_wann=1, k_list=d[1])
+                    else:
+                        rv.set_fft_R_to_k(NK=d[1], num_wann=1, fftlib=d[2], dK=d[3])
+                    got.append(np.array(rv.R_to_k(rv.apply_expdK(X.copy()), der=0, hermitian=False)).reshape(-1).copy())
+            lines.append(f"seq {'#'.join(steps)} {intss(iR)} {gstr(X[:, 0, 0])}")
+            expect.append(got)
+            cases.append(case)
+            ctx.count(f"corr.seq.nsteps={nsteps}")
+            ctx.count("corr.seq.with_klist" if any(d[0] == "klist" for d in desc) else "corr.seq.grids_only")
+    out = yield lines
+    for l, o, e, c in zip(lines, out, expect, cases):
+        ctx.case(signature=l, nontrivial=True)
+        blocks = o.split("#")
+        if len(blocks) != len(e):
+            ctx.mismatch("seq: malformed model output " + o[:80], dict(line=l[:300]))
+            continue
+        for istep, (b, ev) in enumerate(zip(blocks, e)):
+            m = cplx(b)
+            if m.shape != ev.shape or np.abs(m - ev).max() > 1e-12 * (1 + np.abs(m).max()):
+                ctx.mismatch(f"history of set_fft_R_to_k calls: after call #{istep + 1} ({c['steps'][istep]}) R_to_k differs from "
+                             f"the model by {np.abs(m - ev).max() if m.shape == ev.shape else 'shape'}", dict(line=l[:300], case=c))
+                break
+
+
 # ------------------------------------------------------------------------------------------------
 # helpers shared with C33: Hermitian random systems with an inversion-symmetric R set
 
@@ -286,6 +348,66 @@ def herm_err(A):
 # oracle
 
 def oracle(ctx, scale):
+    oracle_backends(ctx, scale)
+    oracle_histories(ctx, scale)
+
+
+def oracle_histories(ctx, scale):
+    """C02 is quantified over configurations/histories of the public Rvectors / FFT API: ONE Rvectors object is taken through
+    a sequence of set_fft_R_to_k calls (different dK, NKFFT, fftlib and explicit k lists, in any order, also returning to an
+    earlier configuration); after every call R_to_k(der=0..3) is compared with the explicit sum over R for the CURRENT
+    configuration (not only pairwise across back ends)"""
+    rng = ctx.rng
+    for it in range(ctx.n(25, 250) * scale):
+        with quiet():
+            s = make_system(rng, keys=("Ham",), nR=rng.choice([3, 6, 12]))
+        nw = s.num_wann
+        rv = s.rvec                                  # the one object that is re-used
+        X = s.get_R_mat("Ham")
+        configs = []
+        for _ in range(rng.randint(2, 3)):
+            N = np.array(gen_box(rng, choices=(1, 2, 3, 4, 5)))
+            if np.prod(N) > 60:
+                N = np.minimum(N, 3)
+            configs.append(("grid", N, rng.choice(["fftw", "numpy", "slow"]), np.array([rng.random() for _ in range(3)])))
+        if rng.random() < 0.6:
+            configs.append(("klist", np.array([[rng.uniform(-1, 1) for _ in range(3)] for _ in range(rng.randint(1, 5))])))
+        seq = [rng.choice(configs) for _ in range(rng.randint(3, 7))]
+        if rng.random() < 0.5:      # same grid and library, only dK changes
+            g = next(c for c in configs if c[0] == "grid")
+            seq += [g, ("grid", g[1], g[2], np.array([rng.random() for _ in range(3)])), g]
+        case = dict(num_wann=nw, lattice=s.real_lattice, centres=s.wannier_centers_red, iRvec=rv.iRvec,
+                    sequence=[[c[0]] + [np.array(x).tolist() if not isinstance(x, str) else x for x in c[1:]] for c in seq])
+        ctx.case(signature=("hist", rv.iRvec.tobytes(), repr(case["sequence"])), nontrivial=True)
+        ctx.count(f"oracle.history.length={len(seq)}")
+        with ctx.attempt("history of set_fft_R_to_k / R_to_k calls on one Rvectors object", case):
+            for istep, c in enumerate(seq):
+                with quiet():
+                    if c[0] == "klist":
+                        rv.set_fft_R_to_k(NK=(1, 1, 1), num_wann=nw, k_list=c[1])
+                        kpts = c[1]
+                    else:
+                        rv.set_fft_R_to_k(NK=c[1], num_wann=nw, fftlib=c[2], dK=c[3])
+                        kpts = np.array(list(itertools.product(*[range(n) for n in c[1]]))) / c[1][None, :] + c[3][None, :]
+                    der = rng.choice([0, 0, 1, 2, 3])
+                    herm = rng.random() < 0.5
+                    res = np.array(rv.R_to_k(rv.apply_expdK(X.copy()), der=der, hermitian=herm)).copy()
+                ref = explicit_ref(s, "Ham", kpts, der)
+                tol = 1e-11 * (np.abs(ref).max() + 1e-300) * max(1.0, rv.nRvec / 10)
+                if res.shape != ref.shape:
+                    ctx.fail(f"step {istep + 1} ({c[0]}): R_to_k(der={der}) has shape {res.shape}, expected {ref.shape}", case)
+                    break
+                err = np.abs(res - ref).max()
+                if err > tol:
+                    ctx.fail(f"after {istep + 1} set_fft_R_to_k calls on one Rvectors object the result of R_to_k(der={der}) for the "
+                             f"CURRENT configuration {c[0]}"
+                             + (f" (NK={[int(x) for x in c[1]]}, fftlib={c[2]}, dK={np.round(c[3], 4).tolist()})" if c[0] == "grid" else "")
+                             + f" differs from the explicit sum over R by {err:.3e} (allowed {tol:.1e}) - state of an earlier call leaked",
+                             dict(case, step=istep + 1, err=err))
+                    break
+
+
+def oracle_backends(ctx, scale):
     from ..wbsys import wb
     from wannierberri.data_K.data_K_R import Data_K_R
     rng = ctx.rng
